@@ -403,6 +403,8 @@ def tamper(trace, rng):
             return None
         return trace
     if e["op"] == "grid_search":
+        if e["out"] != "ok" or not e["report"]:
+            return None
         e["best"] = e["best"] % len(e["report"]) + 1 if len(e["report"]) > 1 else 0
         # make sure the tampered index is not also a first optimum: corrupt a score too
         e["report"][0]["score"] += 1
